@@ -246,50 +246,133 @@ func ruleL13(p *Prog, r *Report) {
 func ruleL14(p *Prog, r *Report) {
 	const R = "L14"
 	n := 0
+	scope, _ := p.decodeScope()
+	// direct-build sites: a whole element list is installed into an array data slab from outside the slab's own
+	// methods (not an append to / re-slice of the slab's own list), together with a relative size update
+	type site struct {
+		f     *ssa.Function
+		store *ssa.Store
+		list  ssa.Value
+		size  ssa.Value // the amount added to header.size
+	}
+	var sites []site
 	for _, f := range p.Funcs {
-		if p.IsTestFile(f.Pos()) {
+		if p.IsTestFile(f.Pos()) || scope[f] || recvName(f) == "ArrayDataSlab" || strings.HasPrefix(strings.ToLower(f.Name()), "copy") {
 			continue
 		}
 		eachInstr(f, func(in ssa.Instruction) {
-			c, ok := in.(*ssa.Call)
-			if !ok || c.Call.StaticCallee() == nil || c.Call.StaticCallee().Name() != "newArrayWithElements" {
+			st, ok := in.(*ssa.Store)
+			if !ok {
 				return
 			}
-			n++
-			sz := c.Call.Args[len(c.Call.Args)-1]
-			good := false
-			for _, b := range f.Blocks {
-				ifi, ok := b.Instrs[len(b.Instrs)-1].(*ssa.If)
+			fr, ok := asFieldAddr(st.Addr)
+			if !ok || fr.Field != "elements" || fr.Owner == nil || fr.Owner.Obj().Name() != "ArrayDataSlab" || isFreshBase(fr.Base) {
+				return
+			}
+			// skip lists derived from the slab's own list (append / re-slice in the batch builder)
+			own := sliceContains(st.Val, func(v ssa.Value) bool {
+				lf, ok := asLoadedField(v)
+				return ok && lf.Field == "elements"
+			}, 0, map[ssa.Value]bool{})
+			if own || isNilConst(canon(st.Val)) {
+				return
+			}
+			// the size update of the same object in the same function
+			var add ssa.Value
+			eachInstr(f, func(y ssa.Instruction) {
+				s2, ok := y.(*ssa.Store)
 				if !ok {
-					continue
+					return
 				}
-				bo, ok := ifi.Cond.(*ssa.BinOp)
-				if !ok || (bo.Op != token.LSS && bo.Op != token.LEQ) {
-					continue
+				fa, ok := s2.Addr.(*ssa.FieldAddr)
+				if !ok {
+					return
 				}
-				hasSize := sliceContains(bo.X, func(v ssa.Value) bool { return sameValue(v, sz) }, 0, map[ssa.Value]bool{})
-				th := globalLoadName(bo.Y)
-				if th == "" {
-					if cv, ok := canon(bo.Y).(*ssa.Convert); ok {
-						th = globalLoadName(cv.X)
+				if _, fn := structFieldName(fa.X.Type(), fa.Field); fn != "size" {
+					return
+				}
+				in2, ok := fa.X.(*ssa.FieldAddr)
+				if !ok || !sameValue(in2.X, fr.Base) {
+					return
+				}
+				if bo, ok := canonConv(s2.Val).(*ssa.BinOp); ok && bo.Op == token.ADD {
+					if lf, ok := asLoadedField(bo.X); ok && lf.Field == "size" {
+						add = bo.Y
+					} else if lf, ok := asLoadedField(bo.Y); ok && lf.Field == "size" {
+						add = bo.X
 					}
 				}
-				if hasSize && (th == "targetThreshold" || th == "maxThreshold") && edgeDominates(b, 0, in.Block()) {
-					good = true
-				}
-			}
-			r.Decide(good, R, "fast-path-fits:"+p.Name(f), p.InstrPos(in), "the single-slab fast path is taken only when the real element size was checked against the slab size", "a root data slab is built directly from caller data without checking its real size against the slab size: an oversized slab would be created")
-			// the size handed over is the sum of the sizes of exactly the elements handed over
-			n++
-			okSum, why := sizeIsSumOverList(sz, c.Call.Args[len(c.Call.Args)-2])
-			if okSum {
-				r.Ok(R, "fast-path-size-is-sum:"+p.Name(f), p.InstrPos(in), "the element size handed to the direct build is accumulated from ByteSize() of every element placed in the list")
-			} else {
-				r.Bad(R, "fast-path-size-is-sum:"+p.Name(f), p.InstrPos(in), "the element size handed to the direct build is not the sum of ByteSize() over the elements placed in the list ("+why+"): the root slab would report a size that differs from the bytes written")
+			})
+			if add != nil {
+				sites = append(sites, site{f, st, st.Val, add})
 			}
 		})
 	}
-	r.Floor(R, "direct-build call sites", 1, n)
+	fits := func(f *ssa.Function, at ssa.Instruction, sz ssa.Value) bool {
+		good := false
+		for _, b := range f.Blocks {
+			ifi, ok := b.Instrs[len(b.Instrs)-1].(*ssa.If)
+			if !ok {
+				continue
+			}
+			bo, ok := ifi.Cond.(*ssa.BinOp)
+			if !ok || (bo.Op != token.LSS && bo.Op != token.LEQ) {
+				continue
+			}
+			hasSize := sliceContains(bo.X, func(v ssa.Value) bool { return sameValue(v, sz) }, 0, map[ssa.Value]bool{})
+			th := globalLoadName(bo.Y)
+			if th == "" {
+				if cv, ok := canon(bo.Y).(*ssa.Convert); ok {
+					th = globalLoadName(cv.X)
+				}
+			}
+			if hasSize && (th == "targetThreshold" || th == "maxThreshold") && edgeDominates(b, 0, at.Block()) {
+				good = true
+			}
+		}
+		return good
+	}
+	decide := func(f *ssa.Function, at ssa.Instruction, sz, list ssa.Value) {
+		n++
+		r.Decide(fits(f, at, sz), R, "fast-path-fits:"+p.Name(f), p.InstrPos(at), "the single-slab fast path is taken only when the real element size was checked against the slab size", "a root data slab is built directly from caller data without checking its real size against the slab size: an oversized slab would be created")
+		n++
+		okSum, why := sizeIsSumOverList(sz, list)
+		if okSum {
+			r.Ok(R, "fast-path-size-is-sum:"+p.Name(f), p.InstrPos(at), "the element size handed to the direct build is accumulated from ByteSize() of every element placed in the list")
+		} else {
+			r.Bad(R, "fast-path-size-is-sum:"+p.Name(f), p.InstrPos(at), "the element size handed to the direct build is not the sum of ByteSize() over the elements placed in the list ("+why+"): the root slab would report a size that differs from the bytes written")
+		}
+	}
+	for _, s := range sites {
+		sp, sIsP := canon(s.size).(*ssa.Parameter)
+		lp, lIsP := canon(s.list).(*ssa.Parameter)
+		if sIsP && lIsP {
+			// a helper that installs what its callers hand over: decided at every call site
+			si, li := -1, -1
+			for i, q := range s.f.Params {
+				if q == sp {
+					si = i
+				}
+				if q == lp {
+					li = i
+				}
+			}
+			for _, c := range p.CallersOf(s.f) {
+				ct := c.Caller
+				if p.IsTestFile(ct.Pos()) {
+					continue
+				}
+				args := c.Instr.Common().Args
+				if si < 0 || li < 0 || si >= len(args) || li >= len(args) {
+					continue
+				}
+				decide(ct, c.Instr, args[si], args[li])
+			}
+			continue
+		}
+		decide(s.f, s.store, s.size, s.list)
+	}
+	r.Floor(R, "direct-build obligations", 2, n)
 }
 
 // L17 batch builders: (a) the next tree level is built only from at least two slabs of the level below (the
